@@ -186,3 +186,151 @@ def report(rep, pid, m, chars, step, label, role):
         return
     rep.violation(key, '%s: after the characters %s the failing token is reported at %s, expected line %d' % (
         label, ['U+%04X' % c for c in cps], (mloc.group(0).strip() if mloc else err[:80]), line), p)
+
+
+# ---------------------------------------------------------------------------------------------------------------------------------
+# checkpoint / restore round trip (C05: speculative parses rewind the lexer; C20: positions after a rewind)
+# ---------------------------------------------------------------------------------------------------------------------------------
+CK_FIELDS = ['current_pos', 'line', 'column', 'start_pos', 'start_line', 'start_column', 'saw_newline']
+
+
+def check_checkpoint(rep, cross, pid):
+    """Lexer::checkpoint(); <arbitrary scanning: every position field havoc'd>; Lexer::restore(cp)  ==  identity on the lexer.
+
+    Pre-state: every position field symbolic, `source` a symbolic ASCII string (<= 8 bytes), invariant current_pos <= source.len().
+    Post: the seven position fields equal their values at the checkpoint, chars_base_offset == current_pos (byte offsets reported by the
+    re-created iterator are relative to it), and the re-created character iterator runs over exactly source[current_pos..].
+    """
+    from emir.strings import s_at
+    ex = common.executor(unwind=4)
+    it_arg = []
+
+    def char_indices(e, s, c):
+        v = deref(e, s, c.args[0])
+        if not isinstance(v, Str):
+            return None
+        e.models_used.add('str::char_indices / Iterator::peekable as "iterator over this string" (ASCII)')
+        return e.ret(s, c, Agg('iter', 'CharIndicesOf', {0: v}))
+    ex.overrides.append((re.compile(r'^str::char_indices$'), char_indices))
+
+    def peekable(e, s, c):
+        v = c.args[0]
+        if isinstance(v, Agg) and v.ty == 'CharIndicesOf':
+            return e.ret(s, c, v)
+        return None
+    ex.overrides.append((re.compile(r'^Iterator::peekable$|^<CharIndices<.*> as Iterator>::peekable$|^<CharIndices as Iterator>::peekable$'), peekable))
+
+    L = {n: i for i, n in enumerate(ex.src.structs['Lexer'])}
+    fck = common.fn_name(ex, 'Lexer', 'checkpoint')
+    frs = common.fn_name(ex, 'Lexer', 'restore')
+    st = State()
+
+    def sym(prefix):
+        d = {}
+        for k in CK_FIELDS + ['chars_base_offset']:
+            if k == 'saw_newline':
+                d[k] = Bool(z3.Bool(fresh_name(prefix + k)))
+            else:
+                d[k] = Int(z3.BitVec(fresh_name(prefix + k), 64 if k.endswith('pos') or k.endswith('offset') else 32), False)
+        return d
+    pre = sym('pre_')
+    n = z3.BitVec(fresh_name('src_len'), LW)
+    src = Str(n, [z3.BitVec(fresh_name('src_b'), 8) for _ in range(8)])
+    st.assume(z3.ULE(n, 8))
+    for b in src.bytes:
+        st.assume(z3.ULT(b, 0x80))
+    st.assume(z3.ULE(pre['current_pos'].e, z3.ZeroExt(64 - LW, n)))
+    fields = {L[k]: v for k, v in pre.items()}
+    fields[L['source']] = Ref(st.alloc(src))
+    a = st.alloc(Agg('struct', 'Lexer', fields, lazy=True))
+    ex.call_function(st, fck, [Ref(a)])
+    ends = list(ex.run(st))
+    if not common.require_clean(rep, ends, 'Lexer::checkpoint'):
+        return
+    nobl = 0
+    nend = 0
+    for e in ends:
+        s = e.st
+        cp = e.value
+        hv = sym('scan_')
+        lv = s.store[a]
+        for k, v in hv.items():
+            lv.fields[L[k]] = v
+        lv.fields[L['chars']] = Agg('iter', 'CharIndicesOf', {0: Str(z3.BitVec(fresh_name('scan_n'), LW), [z3.BitVec(fresh_name('scan_b'), 8) for _ in range(8)])})
+        s.frames = []
+        ex.call_function(s, frs, [Ref(a), cp])
+        ends2 = list(ex.run(s))
+        if not common.require_clean(rep, ends2, 'Lexer::restore'):
+            return
+        for e2 in ends2:
+            nend += 1
+            lv = e2.st.store[a]
+            goals = []
+            for k in CK_FIELDS:
+                got = lv.fields.get(L[k])
+                goals.append(('%s restored' % k, (got.e == pre[k].e) if got is not None else z3.BoolVal(False)))
+            bo = lv.fields.get(L['chars_base_offset'])
+            goals.append(('chars_base_offset == current_pos at the checkpoint', (bo.e == pre['current_pos'].e) if bo is not None else z3.BoolVal(False)))
+            it = lv.fields.get(L['chars'])
+            if isinstance(it, Agg) and it.ty == 'CharIndicesOf':
+                t_ = it.fields[0]
+                p16 = z3.Extract(LW - 1, 0, pre['current_pos'].e)
+                same = [t_.n == n - p16]
+                for i in range(8):
+                    idx = z3.BitVecVal(i, LW)
+                    same.append(z3.Implies(z3.ULT(idx, n - p16), s_at(t_, idx) == s_at(src, p16 + idx)))
+                goals.append(('character iterator re-created over source[current_pos..]', z3.And(same)))
+            else:
+                goals.append(('character iterator re-created over source[current_pos..]', z3.BoolVal(False)))
+            for label, g in goals:
+                t = time.time()
+                r, m = ex.check_sat_pc(e2.st.pc, [z3.Not(g)])
+                nobl += 1
+                what = 'Lexer::checkpoint -> scan -> restore: %s' % label
+                rep.obligation(what, r, 'any lexer state; ASCII source <= 8 bytes', time.time() - t)
+                if r == 'unsat':
+                    cross.append((what, list(e2.st.pc) + [z3.Not(g)], 'unsat'))
+                elif r == 'sat':
+                    report_checkpoint(rep, pid, label)
+                else:
+                    rep.inconc('%s: solver answered %s' % (what, r))
+    rep.sample({'kernel': 'Lexer::checkpoint/restore round trip', 'end_states': nend, 'obligations': nobl})
+    rep.vacuity.append('Lexer::checkpoint/restore: %d end states' % nend)
+    rep.absorb(ex)
+
+
+# programs whose meaning depends on a speculative parse rewinding the lexer exactly (line, column, token start, newline flag, characters)
+REWIND_PROGRAMS = [
+    # `<` tried as a type assertion / generic call first, then re-read as a comparison; the failing token sits after the rewind
+    ('compare-then-fail', 'let a = 1, b = 2;\nlet r = a < b;\nnull.x', 3),
+    ('compare-chain', 'let f = 1, g = 2, h = 3;\nlet r = f < g > h;\nnull.x', 3),
+    ('paren-then-fail', 'let a = 1;\nlet r = (a\n  , 2);\nnull.x', 4),
+    ('arrow-lookalike', 'let a = 1, b = 2;\nlet r = (a, b)\n;null.x', 3),
+    # restricted production: the newline flag must survive the rewind (ASI after `x` before `++y` / return)
+    ('asi-after-rewind', 'let x = 1, y = 1;\nlet f = (x) \n=> x;\n', None),
+]
+
+
+def report_checkpoint(rep, pid, label):
+    key = '%s/lexer/checkpoint-restore' % pid
+    if rep.seen(key):
+        return
+    # replay: programs through the real build whose reported error line depends on the rewind
+    bad = None
+    for name, src, line in REWIND_PROGRAMS:
+        if line is None:
+            continue
+        o = driver.replay([{'cmd': 'eval', 'src': src}])[0]
+        rep.validated += 1
+        err = o.get('error', '') or o.get('panic', '')
+        mloc = re.search(r':(\d+):(\d+)\)?\s*$', err.strip().split('\n')[-1]) if err else None
+        if 'panic' in o or not mloc or int(mloc.group(1)) != line:
+            bad = (name, src, line, err)
+            break
+    p = rep.write_replay('lexer-checkpoint', {'cmd': 'eval', 'src': bad[1] if bad else REWIND_PROGRAMS[0][1], 'expected_line': bad[2] if bad else None,
+                                              'observed_error': bad[3] if bad else None, 'obligation': label})
+    if bad:
+        rep.violation(key, 'restore(checkpoint()) is not the identity (%s): program %r reports %r, expected line %d' % (label, bad[0], bad[3][:80], bad[2]), p)
+    else:
+        # the counterexample is a lexer STATE; no witness program of the fixed list shows it - reported as the symbolic counterexample (DESIGN 9.2)
+        rep.violation(key, 'restore(checkpoint()) is not the identity on the lexer state: %s (symbolic counterexample; the witness programs do not show it)' % label, p)
